@@ -214,7 +214,8 @@ def handle (j : Json) : Except String Json := do
     pure (exc (fun (r : List String × List String × List (String × List (Bool × String)) × String) =>
       Json.mkObj [("V", encStrs r.1), ("Sigma", encStrs r.2.1), ("S", Json.str r.2.2.2),
         ("R", Json.arr (r.2.2.1.map fun e => Json.arr #[Json.str e.1,
-           Json.arr (e.2.map fun x => encStrs [if x.1 then "v" else "t", x.2]).toArray]).toArray)]) P.toCfgRaw)
+           Json.arr (e.2.map fun x => encStrs [if x.1 then "v" else "t", x.2]).toArray]).toArray)])
+      (P.toCfgRaw (match j.getObjVal? "aes" with | .ok (Json.bool b) => b | _ => false)))
   -- exercise checkers, object level (C12/C13)
   | "chk_language_from_words" => do
     pure (okJ (Json.bool (Check.languageFromWords (← getNat j "nQ") (← getNat j "max") (← getWords j "A") (← getWords j "words"))))
@@ -256,6 +257,14 @@ def handle (j : Json) : Except String Json := do
   | "print_nfa" => do pure (okJ (Json.str (Parse.printNfa (← decNFA (← j.getObjVal? "N")))))
   | "print_pda" => do pure (okJ (Json.str (Parse.printPda (← decPDA (← j.getObjVal? "P")))))
   | "print_tm" => do pure (okJ (Json.str (Parse.printTm (← decTM (← j.getObjVal? "T")))))
+  | "regexp_print" => do
+    let r ← decRegexp (← j.getObjVal? "r")
+    pure (okJ (Json.mkObj [("full", Json.str (RegexpText.printFull r)), ("simple", Json.str (RegexpText.printSimple r)),
+                           ("str", Json.str (RegexpText.printStr r))]))
+  | "regexp_parse_simple" => do
+    pure (okJ (match RegexpText.parseSimple (← getStr j "text") with | none => Json.null | some r => encRegexp r))
+  | "regexp_parse_full" => do
+    pure (okJ (match RegexpText.parseFull (← getStr j "text") with | none => Json.null | some r => encRegexp r))
   | _ => throw s!"unknown op {op}"
 
 partial def loop (h : IO.FS.Stream) (out : IO.FS.Stream) : IO Unit := do
